@@ -74,7 +74,7 @@ for _pid, _text, _also in [
                              "C02_lookup_truncates_consistently"],
                      "C03": ["C03_planner_executor_correct", "C03_inplace_exact", "C03_inplace_bytes_exact",
                              "C03_old_output_irrelevant_bytes", "C03_clone_phases_in_model_order", "C03_explicit_stack_planner_is_recursive_planner"],
-                     "C05": ["C05_failed_write_not_ok", "C05_rerun_completes", "C05_output_file_reports_failed_write",
+                     "C05": ["C05_failed_write_not_ok", "C05_rerun_completes", "C05_rerun_on_any_leftover_bytes", "C05_output_file_reports_failed_write",
                              "C05_unflushed_would_lose_last_error"],
                      "C06": ["C06_fetch_exact", "C06_archive_fetch_exact", "C06_fetch_exact_bytes"],
                      "C13": ["C13_write_trace_spec", "C13_write_economy_bytes"]}[_pid],
